@@ -572,3 +572,53 @@ def run_C19(ctx):
         ASSUME_COMMON + ["<linux/vhost.h> of this sandbox is the UAPI truth", "ioctl is interposed by symbol definition in the harness binary (vmm-sys-util calls libc::ioctl)",
                          "perm/type bytes outside the defined enums are not fed to the parsers (transmute of an undefined discriminant is outside what a trace can observe)"],
         viol)
+
+
+# ---------------------------------------------------------------------------------------------
+# Daemon engine: C11 (ring life-cycle), C17 (routing), C13 (memory), C14 (ring config), C15 (dirty log)
+NEG = dict(op="negotiate", feats=[30], pf=[0, 1, 3, 5, 9, 13, 15, 18, 21])
+
+
+def vring_letter(a):
+    d = dict(op=a["op"], q=a["q"])
+    if a["op"] == "set_features":
+        d["bits"] = [30] if a["pf"] else []
+    if a["op"] in ("set_vring_kick", "set_vring_call"):
+        d["fd"] = a["fd"]
+    if a["op"] == "set_vring_enable":
+        d["en"] = a["en"]
+    if a["op"] == "kick":
+        d["which"] = a["which"]
+    return d
+
+
+def run_C11(ctx):
+    cover = ctx.tlc_mc("MC_Vring", "MC_Vring_cover")
+    hist = ctx.tlc_mc("MC_Vring", "MC_Vring_hist_" + ctx.tier)
+    depth = 5 if ctx.tier == "quick" else 6
+    hist = [c for c in hist if len(c["steps"]) == depth]
+    if ctx.tier == "quick":
+        hist = hist[::max(1, len(hist) // 4000)]
+        cover = cover[::2]
+    cases = []
+    for i, c in enumerate(cover):
+        cases.append(dict(nq=2, masks=[3] if i % 3 else [1, 2], vring="rwlock" if i % 2 else "mutex", adapter=("arc", "mutex", "rwlock")[i % 3],
+                          steps=[NEG, dict(op="set_features", bits=[])][:1] + [vring_letter(a) for a in c["steps"]]))
+    for i, c in enumerate(hist):
+        cases.append(dict(nq=1, masks=[1], vring="rwlock" if i % 2 else "mutex", steps=[NEG] + [vring_letter(a) for a in c["steps"]]))
+    cases = replay_or(ctx, "daemon", cases)
+    tr = ctx.harness("daemon", cases, shards=12)
+    viol = ctx.tlc_tv("TV_Vring", tr, "daemon")
+    ctx.count_distinct(tr, lambda e: (e.get("op"), json.dumps(e.get("letter"), sort_keys=True), e.get("status"), e.get("ndispatch")),
+                       lambda e: e.get("ev") == "step" and e.get("op") != "negotiate")
+    ctx.sample(tr, 2, skip=4)
+    ctx.exhaustive = True
+    return ctx.finish("model_checking",
+        "VringLifecycle.tla: every (state, control letter) transition of the 2-ring model (letters: SET_FEATURES +-PF, SET_VRING_KICK "
+        "new/none/same, SET_VRING_CALL, SET_VRING_ENABLE 0/1, GET_VRING_BASE, RESET_DEVICE, kick on the current / a replaced descriptor) "
+        "and all 1-ring histories to depth 5 (6 thorough) are model-checked (quiescence, retained kicks) and replayed on a real "
+        "VhostUserDaemon (Mutex- and RwLock-backed rings, three backend adapters, one or two workers); after each letter a barrier listener "
+        "brings the workers to quiescence, so the set of dispatched rings is observed exactly and TLC compares it with the model",
+        ASSUME_COMMON + ["dispatches caused by a kick on a descriptor the ring no longer holds are not judged",
+                         "epoll reports descriptors that became ready before the barrier descriptor no later than the barrier (level-triggered, FIFO ready list)"],
+        viol)
